@@ -153,3 +153,44 @@ package jsonapi
 //@ loop 1 invariant ok: len(errs) == 0 ==> (forall i int :: 0 <= i && i < $idx#0 ==> typeOK(s, s.Types[i])) && (forall k string :: visited(k) ==> relOK(s, typ.Name, typ.Rels[k]))
 //@ loop 1 invariant bad: len(errs) != 0 ==> (exists i int :: 0 <= i && i < $idx#0 && !typeOK(s, s.Types[i])) || (exists k string :: visited(k) && k in typ.Rels && !relOK(s, typ.Name, typ.Rels[k]))
 //@ loop 2 invariant found-iff: found == (exists k string :: visited(k) && reciprocates(targetType.Rels[k], typ.Name, rel))
+
+// ---- Schema.Rels (C16): the canonical list of relationships ----
+
+//@ spec pairLess(a Rel, b Rel) = a.FromType < b.FromType || (a.FromType == b.FromType && a.FromName < b.FromName)
+//@ spec normOf(r Rel) = Rel.Normalize(r)
+//@ spec relListed(s *Schema, n Rel) = exists i int, k string :: 0 <= i && i < len(s.Types) && k in s.Types[i].Rels && n == normOf(s.Types[i].Rels[k])
+
+//@ func Schema.Rels$1
+//@ props C16
+//@ requires in-range: 0 <= i && i < len(*rels) && 0 <= j && j < len(*rels)
+//@ ensures less: result == pairLess((*rels)[i], (*rels)[j])
+
+//@ func Schema.buildRels
+//@ props C16 C12
+//@ requires nonnil: s != nil
+//@ modifies new[map[Rel]Rel]
+//@ ensures fresh: result != nil && fresh(result)
+//@ ensures complete: forall i int, k string :: 0 <= i && i < len(s.Types) && k in s.Types[i].Rels ==> normOf(s.Types[i].Rels[k]) in result
+//@ ensures sound: forall n Rel :: n in result ==> result[n] == n && (exists i int, k string :: 0 <= i && i < len(s.Types) && k in s.Types[i].Rels && n == normOf(s.Types[i].Rels[k]))
+//@ loop 0 invariant fresh: rels != nil && fresh(rels) && othersSame(rels)
+//@ loop 0 invariant complete: forall i int, k string :: 0 <= i && i <= $idx && k in s.Types[i].Rels ==> normOf(s.Types[i].Rels[k]) in rels
+//@ loop 0 invariant sound: forall n Rel :: n in rels ==> rels[n] == n && (exists i int, k string :: 0 <= i && i <= $idx && k in s.Types[i].Rels && n == normOf(s.Types[i].Rels[k]))
+//@ loop 1 invariant fresh: rels != nil && fresh(rels) && othersSame(rels)
+//@ loop 1 invariant typ-is: $idx#0 >= 0 && $idx#0 < len(s.Types) && typ == s.Types[$idx#0]
+//@ loop 1 invariant complete: (forall i int, k string :: 0 <= i && i < $idx#0 && k in s.Types[i].Rels ==> normOf(s.Types[i].Rels[k]) in rels) && (forall k string :: visited(k) ==> normOf(typ.Rels[k]) in rels)
+//@ loop 1 invariant sound: forall n Rel :: n in rels ==> rels[n] == n && (exists i int, k string :: 0 <= i && i <= $idx#0 && k in s.Types[i].Rels && n == normOf(s.Types[i].Rels[k]))
+
+//@ func Schema.Rels
+//@ flag absolute-quantifiers
+//@ props C16 C12
+//@ requires nonnil: s != nil
+//@ ensures complete: forall i int, k string :: 0 <= i && i < len(s.Types) && k in s.Types[i].Rels ==> (exists j int :: 0 <= j && j < len(result) && result[j] == normOf(s.Types[i].Rels[k]))
+//@ ensures sound: forall j int :: 0 <= j && j < len(result) ==> relListed(s, result[j])
+//@ ensures no-duplicates: forall a int, b int :: 0 <= a && a < b && b < len(result) ==> result[a] != result[b]
+//@ ensures sorted: forall a int, b int :: 0 <= a && a < b && b < len(result) ==> !pairLess(result[b], result[a])
+//@ loop 0 invariant rels-fresh: fresh(rels) && len(rels) >= 0
+//@ loop 0 invariant frame: unchanged(heap[Rel]) && unchanged(heap[[]Rel])
+//@ loop 0 invariant listed: forall a int :: 0 <= a && a < len(rels) ==> visited(rels[a]) && rels[a] in set
+//@ loop 0 invariant all-visited-listed: forall n Rel :: visited(n) ==> (exists a int :: 0 <= a && a < len(rels) && rels[a] == n)
+//@ loop 0 invariant distinct: forall a int, b int :: 0 <= a && a < b && b < len(rels) ==> rels[a] != rels[b]
+//@ loop 0 invariant sound: forall a int :: 0 <= a && a < len(rels) ==> relListed(s, rels[a])
